@@ -1365,6 +1365,21 @@ impl Gen {
 
     pub fn next_op(&mut self, ctx: &Ctx, nworlds: usize) -> Op {
         let w = if nworlds > 1 && self.rng.chance(25) { 1 } else { 0 };
+        if matches!(self.profile, Profile::Mixed | Profile::Malformed) && self.rng.chance(1) {
+            // out-of-contract probe: a bundle type that names a component type twice
+            let k = NBUNDLES + self.rng.below(NBUNDLES_ALL - NBUNDLES);
+            let b = self.bundle_for_types(&bundle_types(k));
+            let (h, _) = self.pick_handle(ctx, w);
+            return match self.rng.below(4) {
+                0 => Op::Spawn { w, k: Some(k), b },
+                1 => Op::Insert { w, h, k: Some(k), b },
+                2 => Op::Remove { w, h, k },
+                _ => {
+                    let (k2, b2) = self.random_bundle();
+                    Op::Exchange { w, h, ks: 10, k: k2, b: b2 }
+                }
+            };
+        }
         if self.profile == Profile::Containers && self.rng.chance(70) {
             return self.cont_op(ctx, w);
         }
